@@ -277,7 +277,29 @@ def run(ctx: Ctx) -> None:
             good = isinstance(cls_, pai.FuncRef) and cls_.cls == CI and (tuple(args_) == ((fac,) if f is not None else ()) or (f is None and tuple(args_) == (None,))) and di_ is not None
             detail = f"class {cls_!r}, constructor arguments {args_!r}"
         ctx.check(good, "K5", f"__reduce__ {label}", repo.loc("ordereddict", dm.get("__reduce__") or meths.get("__reduce__")), detail, f"pickling a dictionary {label} rebuilds it from {detail}: the default_factory (and with it the auto-created lists and blocks) is lost, or the class / items are not carried")
-    ctx.units.update({"methods_evaluated": len(KEYED) * 2 + 7, "pai_paths": I.paths_run + I3.paths_run})
+    # evaluated: the shallow copy the case-insensitive class really hands out (its own __copy__ or an inherited one)
+    for cls_q in (CI, DD):
+        mq = e.facts.method(cls_q, "__copy__")
+        if not mq or mq.startswith("ext:"):
+            continue  # reported above
+        for f, label in ((fac, "with a default_factory"), (None, "without a default_factory")):
+            h = {}
+
+            def mk(f=f, cls_q=cls_q):
+                d = mkd(f)
+                d.pytype = cls_q  # type: ignore[misc]
+                d.ci = cls_q == CI
+                d["second"] = SStr.atom("w")
+                h["d"] = d
+                return d, [], {}
+
+            outs = I6.explore(mq, mk)
+            o = outs[0]
+            r = o.value if o.kind == "return" else None
+            good = len(outs) == 1 and isinstance(r, HDict) and r is not h["d"] and r.pytype == cls_q and r.factory is f and list(r.items()) == list(h["d"].items())
+            detail = f"{o.kind} {o.exc or ''}" if not isinstance(r, HDict) else f"class {r.pytype}, default_factory {r.factory!r}, items {list(r.items())!r}"
+            ctx.check(good, "K5", f"copy of a {cls_q.split('.')[-1]} {label}", repo.loc("ordereddict", repo.func(mq)), "same class, same factory, same items, new object", f"copy.copy / .copy() of a {cls_q.split('.')[-1]} {label} gives {detail}; expected the same class, default_factory {f!r} and the items in order: the copy does not behave like the original (missing keys are no longer created)")
+    ctx.units.update({"methods_evaluated": len(KEYED) * 2 + 11, "pai_paths": I.paths_run + I3.paths_run})
 
 
 def _flows_to_return(fn: ast.FunctionDef, calls: list) -> bool:
